@@ -125,6 +125,9 @@ def arith(it, opn, a, b, node):
             return imgdom.multiply(it, a, b, node)
         raise Unsupported(f"operation {opn} on a spectrum", node)
     if isinstance(a, Filtered) or isinstance(b, Filtered):
+        r_ = imgdom.combine_filtered(it, opn, a, b, node)
+        if r_ is not None:
+            return r_
         return Unk(mk(opn, to_term(a), to_term(b)))
     if isinstance(a, Rot) or isinstance(b, Rot):
         if opn == "mul" and isinstance(a, Rot) and isinstance(b, Rot):
